@@ -147,6 +147,12 @@ func (fc *FnCtx) generateOnce(res *FuncResult) *Frame {
 				}
 			}
 		}
+		if spec.Trusted {
+			// flag checkbody: only the call-site clauses (atcall / atstore / mustcall / loop
+			// invariants) of a trusted contract are checked against the body; its postconditions
+			// (ghost effects the body cannot express) stay assumptions
+			spec = &FuncSpec{Pkg: spec.Pkg, Name: spec.Name, Props: spec.Props, Flags: spec.Flags, Loops: spec.Loops, AtCalls: spec.AtCalls, AfterCalls: spec.AfterCalls, MustCalls: spec.MustCalls, AtStores: spec.AtStores, File: spec.File, Line: spec.Line, MayPanic: spec.MayPanic}
+		}
 		if spec.Flags["splitreturns"] != "" && len(fr.rets) > 1 {
 			// one postcondition obligation per return statement (single-path VCs); together they
 			// are equivalent to the obligation over the merged exit state
